@@ -21,6 +21,8 @@ def p2 : P (Rat × Rat) := do let a ← pRat; let b ← pRat; pure (a, b)
 def p3 : P (Rat × Rat × Rat) := do let a ← pRat; let b ← pRat; let c ← pRat; pure (a, b, c)
 def pBins : P (List Rat × List Nat × List Rat) := do let s ← pRats; let n ← pList pNat; let b ← pRats; pure (s, n, b)
 
+-- chi-bar weights outside [0,1]: the model rejects them (fixprop-C07-6, mirrors `pdfChiBarE`); until the patch is in /repo the generator
+-- does not request such weights (PENDING_CHIBAR in props/c07.py), for weights inside [0,1] the guarded and the plain form coincide
 def handle : Handler := fun op args =>
   match op with
   | "c07.unif_pdf" => withArgs p3 args fun (x, lo, hi) =>
@@ -48,8 +50,8 @@ def handle : Handler := fun op args =>
       | .ok _ => if n = 0 then "ok log" else "ok inv"
   | "c07.chi_pdf" => withArgs p2 args fun (x, d) => cls (fun T => pdfChiSqE T x d)
   | "c07.chi_cdf" => withArgs p2 args fun (x, d) => cls (fun T => cdfChiSqE T x d)
-  | "c07.chibar_pdf" => withArgs (do let x ← pRat; let w ← pRats; pure (x, w)) args fun (x, w) => clsR (fun T => pdfChiBar T x w)
-  | "c07.chibar_cdf" => withArgs (do let x ← pRat; let w ← pRats; pure (x, w)) args fun (x, w) => clsR (fun T => cdfChiBar T x w)
+  | "c07.chibar_pdf" => withArgs (do let x ← pRat; let w ← pRats; pure (x, w)) args fun (x, w) => cls (fun T => pdfChiBarE T x w)
+  | "c07.chibar_cdf" => withArgs (do let x ← pRat; let w ← pRats; pure (x, w)) args fun (x, w) => cls (fun T => cdfChiBarE T x w)
   | "c07.exp_pdf" => withArgs p2 args fun (x, m) => cls (fun T => pdfExponential T x m)
   | "c07.exp_cdf" => withArgs p2 args fun (x, m) => cls (fun T => cdfExponential T x m)
   | "c07.mb_pdf" => withArgs p2 args fun (x, a) => cls (fun T => pdfMB T x a)
